@@ -14,6 +14,7 @@ Line-protocol driver for C10 and C09 (exe `nv_c10`).
   (ts.mems (tsfile …) (mods …) ((SCOPE TY (J…))…))          → (ok (BOOL…)…)
   (ts.table (tsfile …) (mods …) (J…) ((SCOPE TY)…))          → (ok (BOOL…)…)      one row per type
   (ref.table cfg (tsdoc …) (J…) ((target "TypeName")…))      → (ok (BOOL…)…)
+  (ref.fields cfg (tsdoc …) (J…) ((args (ivdef…)) | (result TYPE) …))  → (ok (BOOL…)…)
   (ts.atoms (tsfile …) (mods …) SCOPE TY)                    → (ok "tag"…)
   (ref.mem cfg (tsdoc …) target "TypeName" J)        → (ok BOOL)
   (ref.mems cfg (tsdoc …) ((target "TypeName" (J…))…)) → (ok (BOOL…)…)
@@ -85,12 +86,12 @@ def handle : Sexp → Sexp
   | .list [.atom "jsdoc", .str d] => Sexp.ok ((JsDoc.docLines d).map .str)
   | .list [.atom "ts.mem", f, ms, sc, v, t] =>
     match Ts.Dec.file f, decMods ms, Ts.Dec.scope sc, Ts.Dec.j v, Ts.Dec.ty t with
-    | some f, some ms, some sc, some v, some t => Sexp.ok [Sexp.ofBool (Ts.memFuel (Ts.Env.ofFiles f ms) sc fuel v t)]
+    | some f, some ms, some sc, some v, some t => Sexp.ok [Sexp.ofBool (Ts.memFuel ((Ts.Env.ofFiles f ms).withStd) sc fuel v t)]
     | _, _, _, _, _ => Sexp.err "decode"
   | .list [.atom "ts.mems", f, ms, .list qs] =>
     match Ts.Dec.file f, decMods ms with
     | some f, some ms =>
-      let env := Ts.Env.ofFiles f ms
+      let env := (Ts.Env.ofFiles f ms).withStd
       let rs := qs.mapM fun
         | .list [sc, t, .list vs] => do
           let sc ← Ts.Dec.scope sc
@@ -106,7 +107,7 @@ def handle : Sexp → Sexp
   | .list [.atom "ts.table", f, ms, .list vs, .list qs] =>
     match Ts.Dec.file f, decMods ms, vs.mapM Ts.Dec.j with
     | some f, some ms, some vs =>
-      let env := Ts.Env.ofFiles f ms
+      let env := (Ts.Env.ofFiles f ms).withStd
       let rs := qs.mapM fun
         | .list [sc, t] => do
           let g := Ts.globalise env.decls (← Ts.Dec.scope sc) [] (← Ts.Dec.ty t)
@@ -131,7 +132,7 @@ def handle : Sexp → Sexp
   | .list [.atom "ts.atoms", f, ms, sc, t] =>
     match Ts.Dec.file f, decMods ms, Ts.Dec.scope sc, Ts.Dec.ty t with
     | some f, some ms, some sc, some t =>
-      let env := Ts.Env.ofFiles f ms
+      let env := (Ts.Env.ofFiles f ms).withStd
       Sexp.ok ((Ts.Ty.atomTags env 40 (Ts.globalise env.decls sc [] t)).eraseDups.map .str)
     | _, _, _, _ => Sexp.err "decode"
   | .list [.atom "ref.mem", c, d, t, .str n, v] =>
@@ -151,6 +152,22 @@ def handle : Sexp → Sexp
       | some rs => Sexp.ok rs
       | none => Sexp.err "decode-query"
     | _, _ => Sexp.err "decode"
+  | .list [.atom "ref.fields", c, d, .list vs, .list qs] =>
+    -- one row per query: (args (ivdef…)) = Ref_ResolverInput(args f); (result TYPE) = what a resolver returns for TYPE
+    match decCfg c, Gql.Dec.tsDoc d, vs.mapM Ts.Dec.j with
+    | some c, some d, some vs =>
+      let rs := qs.mapM fun
+        | .list [.atom "args", .list as] => do
+          let as ← as.mapM Gql.Dec.ivdef
+          some (bools (vs.map (RefTypes.refArgs c ⟨d⟩ fuel as)))
+        | .list [.atom "result", t] => do
+          let t ← Gql.Dec.gtype t
+          some (bools (vs.map (RefTypes.conf (RefTypes.refResolverOut c ⟨d⟩ fuel) t)))
+        | _ => none
+      match rs with
+      | some rs => Sexp.ok rs
+      | none => Sexp.err "decode-query"
+    | _, _, _ => Sexp.err "decode"
   | .list [.atom "coerce", c, d, .list vds, .list vs] =>
     match decCfg c, Gql.Dec.tsDoc d, vds.mapM Gql.Dec.vardef, vs.mapM Ts.Dec.j with
     | some c, some d, some vds, some vs =>
